@@ -159,10 +159,12 @@ GROUPS = {
         "files": ["cli_escape.rs"], "requires": ["fn escape_json_string("], "model_map": False, "panic_property": "C20",
         "functions": ["player::escape_json_string"],
         "bounds": ("input of exactly one ASCII character, every value 0x00..0x7f (covers every character JSON requires to be "
-                   "escaped: the controls, quote and backslash); non-ASCII characters and inputs longer than one character do not "
+                   "escaped: the controls, quote and backslash), and the two-character inputs 'a' + any ASCII character; non-ASCII characters and inputs longer than one character do not "
                    "finish in CBMC (String growth by a symbolic amount) and are outside the claim"),
         "stubs": ["alloc::fmt::format"],
-        "roles": {"esc_char_ascii": "one ASCII char, all 128 values"},
+        "roles": {"esc_char_ascii_control": "one ASCII control char, all of U+0000..U+001F",
+                  "esc_char_ascii_printable": "one ASCII char U+0020..U+007F",
+                  "esc_plain_then_any_ascii": "the two-character input 'a' + any ASCII char"},
     },
     "native_list": {
         "pkg": "bladeink",
